@@ -70,6 +70,9 @@ deriving DecidableEq, Repr, Inhabited
 /-- what a Close must have done before it may release the watcher mutex / return -/
 def A.cleaned (svc : Bool) (a : A) : Bool := !a.cl || ((if svc then a.rr else a.rm && a.rs) && a.sr)
 
+/-- the Close has removed the target from the tables of its router -/
+def A.tablesClean (svc : Bool) (a : A) : Bool := if svc then a.rr else a.rm && a.rs
+
 /-- no half-done table change is pending (an early return here would leave the tables inconsistent) -/
 def A.quiet (a : A) : Bool := !a.mid && !a.pa && !a.pr
 
@@ -91,7 +94,7 @@ def A.step (svc : Bool) (a : A) : Instr → Option A
   | .sDel => if a.ht && a.mid then some { a with mid := false } else none
   | .sRemove => if a.ht && !a.mid then some { a with rr := true } else none
   | .setAdd => some a
-  | .setRemove => if a.cl && !a.sr then some { a with sr := true } else none
+  | .setRemove => if a.cl && !a.sr && a.tablesClean svc then some { a with sr := true } else none
   | .pLoad => some a
   | .pIter => some a
   | .sLoad => some a
@@ -184,6 +187,7 @@ structure State where
   static : List Entry := []
   routes : Svc → Option Entry := fun _ => none
   svcRoutes : Name → List Svc := fun _ => []
+  waiting : Svc → List Entry := fun _ => []   -- service: claims of targets listing a service routed to another target (fix D31)
   threads : Tid → Option Thread := fun _ => none
   closeRet : List Wid := []      -- ghost: watchers whose Close has returned
 deriving Inhabited
@@ -216,6 +220,49 @@ def svcAdd (storeSame : Bool) (e : Entry) : List Svc → (Svc → Option Entry) 
       if old.desc.name = e.desc.name then
         svcAdd storeSame e ks (if storeSame then upd r k (some e) else r) (pres ++ [k])
       else svcAdd storeSame e ks r pres
+
+/-- `recordClaim`: replace the claim of the same target in place, else append (claim order is kept) -/
+def recordClaim : List Entry → Entry → List Entry
+  | [], new => [new]
+  | c :: cs, new => if c.desc.name = new.desc.name then new :: cs else c :: recordClaim cs new
+
+/-- `dropClaim`: forget the claim of a target -/
+def dropClaim : List Entry → Name → List Entry
+  | [], _ => []
+  | c :: cs, n => if c.desc.name = n then cs else c :: dropClaim cs n
+
+/-- the conflict branch of the add phase: every listed key that is routed to a target of another name
+    records / refreshes the updater's claim. The decision only depends on the routes before the phase,
+    because the phase itself never touches a key owned by another name. -/
+def svcClaim (e : Entry) (r : Svc → Option Entry) : List Svc → (Svc → List Entry) → (Svc → List Entry)
+  | [], w => w
+  | k :: ks, w =>
+    match r k with
+    | some old =>
+      if old.desc.name = e.desc.name then svcClaim e r ks w
+      else svcClaim e r ks (upd w k (recordClaim (w k) e))
+    | none => svcClaim e r ks w
+
+/-- state threaded through the release loops -/
+structure RelSt where
+  r : Svc → Option Entry
+  w : Svc → List Entry
+  v : Name → List Svc
+
+/-- `release`: hand the service over to the earliest waiting claimant with ONE store, or delete it -/
+def release (q : RelSt) (k : Svc) : RelSt :=
+  match q.w k with
+  | [] => { q with r := upd q.r k none }
+  | c :: rest => { r := upd q.r k (some c), w := upd q.w k rest, v := upd q.v c.desc.name (q.v c.desc.name ++ [k]) }
+
+def relLoop : List Svc → RelSt → RelSt
+  | [], q => q
+  | k :: ks, q => relLoop ks (release q k)
+
+/-- `newSvcRoutes` is duplicate-free (first occurrences, in order) -/
+def dedup : List Svc → List Svc
+  | [] => []
+  | k :: ks => k :: (dedup ks).filter (fun x => x ≠ k)
 
 def svcDelete : List Svc → (Svc → Option Entry) → (Svc → Option Entry)
   | [], r => r
@@ -289,17 +336,21 @@ def exec (svc storeSame : Bool) (s : State) (t : Tid) (th : Thread) (i : Instr) 
   | .pStore => some { setThread s t th' with static := s.mtab }
   | .sAdd =>
     let rp := svcAdd storeSame ⟨th.w, th.desc⟩ th.desc.svcs s.routes []
-    some { setThread s t { th' with present := rp.2 } with routes := rp.1 }
+    some { setThread s t { th' with present := rp.2 } with
+           routes := rp.1, waiting := svcClaim ⟨th.w, th.desc⟩ s.routes th.desc.svcs s.waiting }
   | .sDel =>
+    -- forget the updater's claims for services it does not list any more, release what it owned and
+    -- does not list any more (hand-over or delete), then record its new, duplicate-free key list
+    let q := relLoop ((s.svcRoutes th.desc.name).filter (fun k => !th.present.contains k))
+      ⟨s.routes, fun k => if th.desc.svcs.contains k then s.waiting k else dropClaim (s.waiting k) th.desc.name, s.svcRoutes⟩
     some { setThread s t th' with
-           routes := svcDelete ((s.svcRoutes th.desc.name).filter (fun k => !th.present.contains k)) s.routes,
-           svcRoutes := upd s.svcRoutes th.desc.name th.present }
+           routes := q.r, waiting := q.w, svcRoutes := upd q.v th.desc.name (dedup th.present) }
   | .sRemove =>
     match s.watchers th.w with
     | some wt =>
+      let q := relLoop (s.svcRoutes wt.name) ⟨s.routes, s.waiting, s.svcRoutes⟩
       some { setThread s t th' with
-             routes := svcDelete (s.svcRoutes wt.name) s.routes,
-             svcRoutes := upd s.svcRoutes wt.name [] }
+             routes := q.r, svcRoutes := upd q.v wt.name [], waiting := fun k => dropClaim (q.w k) wt.name }
     | none => none
   | .setAdd =>
     if s.wset.contains th.key then some (setThread s t { th' with res := .watchFail })
